@@ -16,7 +16,7 @@ sys.path.insert(0, ROOT)
 from tools import vrun
 from tools.vrun import Break
 
-UNITS = ['sim', 'lex', 'upd', 'ptab', 'qbk', 'arith', 'semk', 'ovl']          # extended as units are built (see units/*.py)
+UNITS = ['sim', 'lex', 'upd', 'ptab', 'qbk', 'arith', 'semk', 'ovl', 'scope']          # extended as units are built (see units/*.py)
 NCPU = os.cpu_count() or 8
 
 
@@ -303,7 +303,9 @@ def main():
             out_viol.append((v, rp))
 
     # ---- evidence
-    proof_obls = [x for r in results if r['mode'] == 'proof' for x in r['results'] if 'VACUITY_CANARY' not in x['desc']]
+    known_labels = set(v['label'] for _, v in known_hits)
+    # obligations of listed known findings are reported separately (coverage.known_findings_hit), not as obligations of this run
+    proof_obls = [x for r in results if r['mode'] == 'proof' for x in r['results'] if 'VACUITY_CANARY' not in x['desc'] and not (x.get('label') in known_labels and x['status'] != 'SUCCESS')]
     n_obl = len(proof_obls)      # canaries are assertions that must FAIL; they are not obligations
     n_ok = len([x for x in proof_obls if x['status'] == 'SUCCESS'])
     n_canary = sum(len([x for x in r['results'] if 'VACUITY_CANARY' in x['desc']]) for r in results if r['mode'] == 'proof')
